@@ -145,7 +145,47 @@ func LoadWorld(repo string, mods ...string) (*World, error) {
 		}
 		return a.Pos() < b.Pos()
 	})
+	for _, f := range w.lunarFns {
+		canonicaliseComparisons(f)
+	}
 	return w, nil
+}
+
+// canonicaliseComparisons rewrites > and >= into < and <= and gives the operands
+// of every == and != a fixed order
+// that does not depend on how the source spells the comparison (`err != nil`
+// and `nil != err`, `a.x == b.y` and `b.y == a.x` are the same test): a
+// constant goes to the right, otherwise the operand with the smaller access
+// path goes to the left. The rules then see one form only.
+func canonicaliseComparisons(f *ssa.Function) {
+	for _, b := range f.Blocks {
+		for _, in := range b.Instrs {
+			bo, ok := in.(*ssa.BinOp)
+			if !ok {
+				continue
+			}
+			// `a > b` is `b < a`, `a >= b` is `b <= a`: only < and <= remain
+			switch bo.Op {
+			case token.GTR:
+				bo.X, bo.Y, bo.Op = bo.Y, bo.X, token.LSS
+			case token.GEQ:
+				bo.X, bo.Y, bo.Op = bo.Y, bo.X, token.LEQ
+			}
+			if bo.Op != token.EQL && bo.Op != token.NEQ {
+				continue
+			}
+			_, xc := bo.X.(*ssa.Const)
+			_, yc := bo.Y.(*ssa.Const)
+			switch {
+			case xc && !yc:
+				bo.X, bo.Y = bo.Y, bo.X
+			case !xc && !yc:
+				if Path(bo.Y) < Path(bo.X) {
+					bo.X, bo.Y = bo.Y, bo.X
+				}
+			}
+		}
+	}
 }
 
 func fnPkgPath(f *ssa.Function) string {
